@@ -146,7 +146,10 @@ pub trait ExpressionReducer {
 
     fn visit_assignment(&mut self, a: Assignment) -> Result<Assignment, LintErrorPos> {
         let (name, v) = a.into();
-        Ok(Assignment::new(name, self.visit_expression_pos(v)?))
+        Ok(Assignment::new(
+            self.visit_expression(name)?,
+            self.visit_expression_pos(v)?,
+        ))
     }
 
     fn visit_for_loop(&mut self, f: ForLoop) -> Result<ForLoop, LintErrorPos> {
